@@ -197,9 +197,22 @@ def marshalling_python(ctx, rid, fn):
         mNB = [re.fullmatch(r'\[(\w+) for \1, \w+ in chain(?:\.from_iterable)?\(\*?(\w+)\)\]', d) for d in _defs(NB)]
         mJJ = [re.fullmatch(r'\[(\w+) for \w+, \1 in chain(?:\.from_iterable)?\(\*?(\w+)\)\]', d) for d in _defs(JJ)]
         mNN = [re.fullmatch(r'\[len\((\w+)\) for \1 in (\w+)\]|list\(map\(len, (\w+)\)\)', d) for d in _defs(NN)]
+        RW = None
         if len(mNB) == 1 and mNB[0] and len(mJJ) == 1 and mJJ[0] and len(mNN) == 1 and mNN[0] and \
                 mNB[0].group(2) == mJJ[0].group(2) == (mNN[0].group(2) or mNN[0].group(3)):
             RW = mNB[0].group(2)
+        elif len(mNN) == 1 and mNN[0] and _defs(NB) == ['[]'] and _defs(JJ) == ['[]']:
+            # the projection written as one loop: for n, c in chain.from_iterable(rows): neighbors.append(n); J.append(c)
+            rw_ = mNN[0].group(2) or mNN[0].group(3)
+            for lp_ in [n for n in g.stmts() if isinstance(n, ast.For)]:
+                m_ = re.fullmatch(r'chain(?:\.from_iterable)?\(\*?(\w+)\)', src(lp_.iter))
+                if m_ and m_.group(1) == rw_ and isinstance(lp_.target, ast.Tuple) and len(lp_.target.elts) == 2 and len(lp_.body) == 2 \
+                        and not lp_.orelse:
+                    a_, b_ = [src(e) for e in lp_.target.elts]
+                    body_ = sorted(src(x) for x in lp_.body)
+                    if body_ == sorted(['%s.append(%s)' % (NB, a_), '%s.append(%s)' % (JJ, b_)]):
+                        RW = rw_
+        if RW is not None:
             n_ = re.escape(N)
             dR = _defs(RW)
             okR = len(dR) == 1 and re.fullmatch(r'\[\[\] for \w+ in range\(%s\)\]' % n_, dR[0]) is not None
